@@ -69,12 +69,12 @@ CHECKS = {
     "C19": dict(
         technique="TLA+ spec TagSyntax (documented tag grammar as recursive descent, three-valued class) evaluated by TLC on all token soups up to a bound and on every single-token edit of valid tags; real Build called on dynamic struct types carrying the tag text, and on a set of struct shapes, under recover + watchdog",
         text="TLC enumerates every sequence of tag tokens up to the bound over the 18-symbol alphabet and every insertion/deletion/replacement of one token in seeded valid tags, and classifies each as MustBuild, MustError (unknown token type, unclosed group or lookahead, modifier/capture/negation applied to nothing, empty alternative) or Either; Build must never panic or hang, must return an error for MustError and a parser for MustBuild, in the whole-tag, parser:\"...\", two-field and struct-field forms. Exhaustive over soups within the bound.",
-        note="Left recursion (also must-error) is decided by C08. Struct shapes are a fixed list of 21 types. The tag lexer (text/scanner) is exercised only through the alphabet's concrete spellings.",
+        note="Left recursion (also must-error) is decided by C08. Struct shapes are a fixed list of 33 types (a fatal crash of Build is attributed to the shape that was running). The tag lexer (text/scanner) is exercised only through the alphabet's concrete spellings.",
         ref="4/C19, 3.9"),
     "C08": dict(
         technique="TLA+ spec Grammar (Nullable, LeftCalls, LeftRecursive) evaluated by TLC over the placement family F_lr; real Build verdict compared; accepted grammars parsed on all short inputs in a stack-limited child process",
         text="For every grammar of F_lr (1-3 mutually referring productions and a union; the reference placed at the head, in later alternatives, after optional/starred/lookahead/nullable prefixes, inside groups, captures and lookahead groups, after consuming prefixes, after empty literals) TLC decides LeftRecursive; Build must return an error exactly for those. Every accepted grammar is then parsed on all inputs up to length 3 under a 64 MiB stack limit: a crash is the consequence clause failing.",
-        note="Production references go through one-member unions because dynamic struct types cannot refer to themselves directly; direct *T recursion is covered by the struct shapes of C19 and the example grammars of C06.",
+        note="Production references go through one-member unions because dynamic struct types cannot refer to themselves directly; hand-written Go grammars with direct pointer / slice recursion, cyclic nullability and same-named types are described in the node algebra and judged by the same specification.",
         ref="4/C08, 3.8"),
     "C14": dict(
         technique="TLA+ spec Ebnf (EbnfOf, Norm) evaluated by TLC against the parsed output of the real Parser.String() for grammars compiled as named Go types; every clause (parseable, root first, defined exactly once, references defined, structure up to redundant parentheses, print-parse-print) decided in MC_Ebnf",
@@ -121,7 +121,7 @@ def main():
                 "replay_cmd_template": "./check %s --replay {path}" % pid,
                 "engine": "tlc+vh",
                 "level_claimed": {"category": c.get("level", MC), "text": c["text"], "design_ref": "DESIGN.md section " + c["ref"]},
-                "level_note": c["note"],
+                "level_note": c["note"] + " The composition of the check as built (specification part and real-code supplements) is tabulated in DESIGN.md 11.12; the seeded changes it detects are listed in SEEDED.md.",
                 "technique": c["technique"],
             })
         else:
